@@ -629,6 +629,14 @@ class Device(device.Device):
         return self.chipset.host_command_frame_max_size - 3
 
     def send_cmd_recv_rsp(self, target, data, timeout):
+        try:
+            return self._send_cmd_recv_rsp(target, data, timeout)
+        except Chipset.Error as error:
+            # an error returned for the preparatory chipset commands
+            self.log.debug(error)
+            raise nfc.clf.TransmissionError(str(error))
+
+    def _send_cmd_recv_rsp(self, target, data, timeout):
         def bitrate(brty):
             return [106 << i for i in range(6)].index(int(brty[:-1]))
 
@@ -1030,9 +1038,9 @@ class Device(device.Device):
 
     def send_rsp_recv_cmd(self, target, data, timeout):
         # print("\n".join(self._print_ciu_register_page(0, 1)))
-        if target.tt3_cmd:
-            return self._tt3_send_rsp_recv_cmd(target, data, timeout)
         try:
+            if target.tt3_cmd:
+                return self._tt3_send_rsp_recv_cmd(target, data, timeout)
             if data:
                 self.chipset.tg_response_to_initiator(data)
             return self.chipset.tg_get_initiator_command(timeout)
